@@ -266,6 +266,13 @@ def facts(repo: Path) -> dict:
         if _self_attr(n) and isinstance(n.ctx, ast.Store):
             ctx_fields.append(n.attr)
 
+    # what the context constructor reads from the builder it is handed (`builder.<name>...`)
+    ctor_reads = []
+    for n in ast.walk(init):
+        if isinstance(n, ast.Attribute) and isinstance(n.value, ast.Name) and n.value.id == 'builder':
+            if not isinstance(n.ctx, ast.Load):
+                raise PartError('trajectories/builders/legacy.py:LegacyContext.__init__', 'writes to the builder')
+            ctor_reads.append(n.attr)
     method_names = {m.name for m in _methods(builder)} | {m.name for m in _methods(lbuilder)}
     init_writes, flight_writes, reads = [], [], []
     for cls in (builder, lbuilder):
@@ -314,7 +321,7 @@ def facts(repo: Path) -> dict:
     finally_stmts = [' '.join(ast.unparse(x).split()) for x in fin_body]
     out = {'ctx_fields': _uniq(ctx_fields), 'init_writes': _uniq(init_writes),
            'flight_writes': _uniq(flight_writes), 'reads': _uniq(reads), 'guarded': guarded,
-           'given_fix': given_fix, 'finally_stmts': finally_stmts}
+           'given_fix': given_fix, 'finally_stmts': finally_stmts, 'ctor_reads': _uniq(ctor_reads)}
     out.update(iterate_facts(base))
     return out
 
@@ -333,6 +340,7 @@ def extract(repo: Path) -> str:
             f'Definition g_reads : list string := {lst(f["reads"])}.\n'
             f'Definition g_finally_guarded : bool := {"true" if f["guarded"] else "false"}.\n'
             f'Definition g_given_mass_fuel_derived : bool := {"true" if f["given_fix"] else "false"}.\n'
+            f'Definition g_ctor_builder_reads : list string := {lst(f["ctor_reads"])}.\n'
             f'Definition g_finally_body : list string := {lst(f["finally_stmts"])}.\n'
             f'Definition g_iterate_limit_strict : bool := {"true" if f["iter_strict"] else "false"}.\n'
             f'Definition g_iterate_test_uses_abs : bool := {"true" if f["iter_abs"] else "false"}.\n'
